@@ -22,12 +22,12 @@ EXPLANATION = (
     'whose loop iteration finished before the kill is listed, (C) a second run on the post-crash directory and manifest '
     'ends with exactly the files (same set, same value terms, including the RNG state rng(seed expression) actually '
     'passed to torch.manual_seed) of an uninterrupted run, and (D) listed utterances are neither re-read nor rewritten.')
-BOUNDS = {'quick': '1-4 utterances, 0-1 pre-processor (dither-like: consumes the RNG), with/without computer, every crash step, hard and soft kill, symbolic seed',
+BOUNDS = {'quick': '1-4 utterances, 0-1 pre-processor (dither-like: consumes the RNG), with/without computer, every crash step, hard kill, soft interrupt and failing write (OSError raised by torch.save at the step), symbolic seed; utterance ids not in lexicographic order',
           'thorough': 'up to 5 utterances, 2 pre-processors, 2 post-processors'}
 OUTSIDE = ['real process kills and real multi-process DataLoader workers: order preservation is the DataLoader stub\'s contract, so independence of --num-workers is assumed, not shown',
            'file-system atomicity beyond the three-step write model', 'runs without --seed (a fresh random seed is drawn per run by design)']
 ASSUMPTIONS = ['io.TextIOWrapper: lines printed are durable only after flush()/close(); a soft interrupt unwinds normally and the interpreter flushes at exit',
-               'torch.save is not atomic: absent -> partial -> complete', 'DataLoader yields items in index order, one __getitem__ per index']
+               'torch.save is not atomic: absent -> partial -> complete; a failing write leaves the partial file and raises OSError', 'DataLoader yields items in index order, one __getitem__ per index']
 CONFIG_TIME_LIMIT = {'quick': 600, 'thorough': 1800}
 
 
